@@ -67,12 +67,12 @@ theorem allM_cons {α β} (f : α → Option β) (a : α) (as : List α) (b : β
     (ha : f a = some b) (hs : Macro.allM f as = some bs) : Macro.allM f (a :: as) = some (b :: bs) := by
   simp [Macro.allM, ha, hs]
 
-theorem namedLoop_keys (ra : Option Rule) (cd : Bool) (fs : List Field) (ps : List (Str × Bool × Sch)) (fl : List Sch)
-    (props : List (Str × Bool × Sch)) (flat : List Sch)
+theorem namedLoop_keys (ra : Option Rule) (cd : Bool) (fs : List Field) (ps : List (Str × Bool × Sch)) (fl : List (Bool × Sch))
+    (props : List (Str × Bool × Sch)) (flat : List (Bool × Sch))
     (hw : ∀ f ∈ fs, ¬ (f.flatten = true ∧ f.withFn = true))
     (h : Macro.namedLoop ra cd fs ps fl = some (.obj props flat)) :
     ∃ ks, Serde.keys ra cd fs = some ks ∧ readProps props = readProps ps.reverse ++ ks
-      ∧ flat = fl.reverse ++ ((fs.filter fun f => Serde.written f && f.flatten).map fun f => Sch.ty f.inner) := by
+      ∧ flat = fl.reverse ++ ((fs.filter fun f => Serde.written f && f.flatten).map fun f => (f.option, Sch.ty f.inner)) := by
   induction fs generalizing ps fl with
   | nil =>
     simp only [Macro.namedLoop, Option.some.injEq, Sch.obj.injEq] at h
@@ -134,7 +134,7 @@ theorem struct_keys_exact (ra : Option Rule) (cd : Bool) (fs : List Field) (s : 
     (hw : ∀ f ∈ fs, ¬ (f.flatten = true ∧ f.withFn = true))
     (h : Macro.schemaOfFields ra cd (.named fs) = some s) :
     ∃ props flat, s = .obj props flat ∧ Serde.keys ra cd fs = some (readProps props)
-      ∧ flat = (fs.filter fun f => Serde.written f && f.flatten).map fun f => Sch.ty f.inner := by
+      ∧ flat = (fs.filter fun f => Serde.written f && f.flatten).map fun f => (f.option, Sch.ty f.inner) := by
   simp only [Macro.schemaOfFields] at h
   have shape : ∀ (fs : List Field) ps fl s, Macro.namedLoop ra cd fs ps fl = some s → ∃ p f, s = .obj p f := by
     intro fs
@@ -167,10 +167,10 @@ theorem allM_sound {α β} (f g : α → Option β) (l : List α) (out : List β
         simp [hfg a b ha, ih bs hs, h]
 
 /-- **all-unit enum.**  The enumerated strings are exactly the variant names serde writes, skipped variants left out. -/
-theorem unit_enum_names_exact (e : EnumDef) (s : Sch) (hu : e.variants.all (·.fields.isUnit) = true)
+theorem unit_enum_names_exact (e : EnumDef) (s : Sch) (hu : e.variants.all (·.fields.isUnit) = true) (ht : e.tag = none) (hun : e.untagged = false)
     (h : Macro.schemaOfVariants e = some s) : ∃ names, s = .enm names ∧ Serde.unitNames e = some names := by
   unfold Macro.schemaOfVariants at h
-  rw [if_pos hu] at h
+  rw [if_pos (by simp [hu, ht, hun])] at h
   cases hn : Macro.allM (fun v => Macro.name Macro.applyVariant e.renameAll v.ident v.rename) (e.variants.filter fun v => !(v.skip || v.skipSer)) with
   | none => rw [hn] at h; simp at h
   | some names =>
